@@ -483,3 +483,126 @@ def float_overflow_table(facts):
             r.ok(b.npath, site, "no overflow reported for operands of opposite sign or a zero operand (7 sign pairs x 2^%d free comparisons)" % NB)
     r.floor = 2
     return r
+
+
+# ------------------------------------------------------------------------------------------------ C05 (search contract)
+class FreeWalk(Walk):
+    """abstract walk in which every comparison whose operands are not concrete consumes one free oracle bit"""
+
+    def __init__(self, facts, b, oracle, args, bits):
+        Walk.__init__(self, facts, b, oracle, args)
+        self.bits = list(bits)
+        self.used = 0
+
+    def free(self):
+        if self.used >= len(self.bits):
+            raise Unknown("more than %d free comparisons" % len(self.bits))
+        v = self.bits[self.used]
+        self.used += 1
+        return v
+
+    def rvalue(self, rv):
+        if rv["k"] == "bin" and rv["op"] in ("Gt", "Lt", "Ge", "Le", "Eq", "Ne"):
+            a, c = self.operand(rv["o"][0]), self.operand(rv["o"][1])
+            if isinstance(a, (bool, int)) and isinstance(c, (bool, int)):
+                return Walk.rvalue(self, rv)
+            return self.free()
+        return Walk.rvalue(self, rv)
+
+
+ORD = {"Less": ("enum", 255, "Less"), "Equal": ("enum", 0, "Equal"), "Greater": ("enum", 1, "Greater")}
+
+
+def _search_oracle(scen, elems):
+    """scen: how every inspected element compares with the target ('Less' | 'Equal' | 'Greater'); the linear iterator yields `elems` elements"""
+    state = {"n": 0}
+
+    def is_target(v):
+        v = deref(v)
+        return isinstance(v, tuple) and v == ("sym", "B")
+
+    def oracle(w, f, args, t):
+        np_ = norm_path(f["path"])
+        nm = last_seg(np_)
+        if np_.startswith(("core::cmp::Ord::", "core::cmp::PartialOrd::", "core::cmp::PartialEq::")) and len(args) == 2:
+            ta, tb = is_target(args[0]), is_target(args[1])
+            if ta == tb:
+                raise Unknown("comparison that does not involve the target exactly once")
+            rel = scen if tb else {"Less": "Greater", "Greater": "Less", "Equal": "Equal"}[scen]      # ordering of args[0] relative to args[1]
+            w.trace.append(("cmp", nm, rel))
+            if nm == "cmp":
+                return ORD[rel]
+            if nm == "partial_cmp":
+                return ("agg", "core::option::Option", "Some", [ORD[rel]], 1)
+            return {"lt": rel == "Less", "le": rel in ("Less", "Equal"), "gt": rel == "Greater", "ge": rel in ("Greater", "Equal"),
+                    "eq": rel == "Equal", "ne": rel != "Equal"}[nm]
+        if nm == "binary_search" or nm == "binary_search_by" or nm == "binary_search_by_key":
+            w.trace.append(("binary_search",))
+            if scen == "Equal":
+                return ("agg", "core::result::Result", "Ok", [("opaque", "pos")], 0)
+            return ("agg", "core::result::Result", "Err", [("opaque", "pos")], 1)
+        if nm == "next" and np_.startswith("core::iter::"):
+            state["n"] += 1
+            if state["n"] <= elems:
+                return ("agg", "core::option::Option", "Some", [("agg", "tuple", "", [("opaque", "i"), ("ref", ("opaque", "elt"))], None)], 1)
+            return ("enum", 0, "None")
+        if f.get("crate") == "petgraph" and nm in ("neighbors_of",):
+            return ("agg", "tuple", "", [("opaque", "index"), ("ref", ("opaque", "row"))], None)
+        if nm in ("len", "iter", "enumerate", "into_iter", "index", "get_unchecked", "last", "first", "deref", "as_slice"):
+            return ("opaque", nm)
+        raise Unknown("call %s" % np_)
+    return oracle
+
+
+def search_contract(facts):
+    r = RuleResult("TABLE-SEARCH", "Csr::find_edge_pos (the search behind add_edge / contains_edge / find_edge), walked over the abstract outcomes of its comparisons: "
+                                   "if the row elements it inspects compare Equal to the target it returns Ok (present); if they all compare Less, or Greater, it "
+                                   "returns Err (absent) - on both the linear and the binary-search path, whatever the row length")
+    bs = facts.find("csr::Csr::find_edge_pos")
+    if not bs:
+        r.bad(Violation("TABLE-SEARCH", "csr::Csr::find_edge_pos", "anchor-missing", "src/csr.rs", 0, "Csr::find_edge_pos not found - fail closed"))
+        return r
+    import itertools
+    b = bs[0]
+    NB = 3
+    want = {"Equal": "Ok", "Less": "Err", "Greater": "Err"}
+    bad = None
+    silent = None
+    rows = 0
+    try:
+        for scen in ("Equal", "Less", "Greater"):
+            for elems in (1, 2):
+                for bits in itertools.product((False, True), repeat=NB):
+                    w = FreeWalk(facts, b, _search_oracle(scen, elems), {1: ("ref", ("opaque", "SELF")), 2: ("opaque", "A"), 3: ("sym", "B")}, bits)
+                    v = w.run()
+                    got = v[2] if isinstance(v, tuple) and v[0] == "agg" and v[1] == "core::result::Result" else None
+                    if got is None:
+                        raise Unknown("result %r" % (v,))
+                    if not any(x[0] in ("cmp", "binary_search") for x in w.trace):
+                        # a path that inspects no element at all (e.g. an empty-row shortcut): only `absent` is acceptable
+                        if got != "Err":
+                            bad = (scen, got, "without inspecting any element")
+                            break
+                        continue
+                    rows += 1
+                    if got != want[scen]:
+                        bad = (scen, got, "after %s" % [x for x in w.trace if x[0] in ("cmp", "binary_search")][:3])
+                        break
+                if bad:
+                    break
+            if bad:
+                break
+    except Unknown as e:
+        silent = str(e)
+    if silent:
+        r.silent += 1
+        r.ok(b.npath, "search-table", "unrecognised construct (%s): silent" % silent)
+    elif bad:
+        r.bad(Violation("TABLE-SEARCH", b.npath, "search-table", b.file, b.line,
+                        "find_edge_pos returns %s when the inspected row elements compare %s to the target (%s): an edge that is stored is reported "
+                        "absent (contains_edge false, add_edge inserts a duplicate) or an absent one present - e.g. a non-strict comparison in a "
+                        "fast path that skips the search for the row's largest element" % (bad[1], bad[0], bad[2])))
+    else:
+        r.ok(b.npath, "search-table", "Ok exactly on Equal, Err on Less/Greater (%d walked rows: 3 orderings x 1-2 elements x 2^%d free comparisons)" % (rows, NB))
+    r.floor = 1
+    return r
